@@ -358,3 +358,10 @@ func countTaps(run *vc.Run, ex *rt.Exchange) {
 		run.Count("tap_client_out", 1)
 	}
 }
+
+// genRuntimeSpec draws one runtime-drivable spec.
+func genRuntimeSpec(run *vc.Run, stream uint64, i int, prof string) *spec.Spec {
+	s := gen.Generate(run.Rand(stream, uint64(i)), fmt.Sprintf("%d", i), gen.Opts{Profile: prof, Runtime: true, Thorough: run.Thorough()})
+	s.AddFeature("profile-" + prof)
+	return s
+}
